@@ -6,7 +6,9 @@ TRUSTED_BASE = [
     "no native_decide / bv_decide / sorry / user axioms (grep on every run)",
     "Lean compiler+runtime for the driver n2kdrv only (executes model definitions for the correspondence)",
     "correspondence harness (g++ 12, ASan+UBSan, x86-64 LP64 little-endian) and its generators: differential "
-    "testing ties the hand-written model to /repo/src as compiled on this run",
+    "testing ties the hand-written model to /repo/src as compiled on this run; a prefix of the generated ops (3000 lines, "
+    "x4 in the thorough tier) is replayed on a build without sanitizers under valgrind memcheck (reports raised inside "
+    "/repo/src code count: uninitialised reads are invisible to ASan/UBSan)",
 ]
 
 ALL_LIB = ['N2kMsg.cpp', 'N2kStream.cpp', 'N2kMessages.cpp', 'N2kTimer.cpp', 'N2kGroupFunction.cpp',
